@@ -17,6 +17,9 @@ def metric_slot(k):
     return "m:" + k
 
 
+MISMATCH = T.Sentinel("<spec-mismatch>")
+
+
 class ObjModel(object):
     def __init__(self, ctx, v, pins=None, run_init=True, stop_after=None):
         """pins: slot name -> iterable of allowed values (case split)."""
@@ -111,7 +114,7 @@ class ObjModel(object):
         for name in ("m", "macroVector", "extract_value_metric", "compute_base_score"):
             if name not in cls.methods:
                 raise AnalysisError("E5.model", "CVSS4.%s vanished" % name, cls.node, self.module)
-        self.v4 = {"eff": {}, "eff_def": {}, "digits": None, "digit_defs": None, "mv_slots": {}}
+        self.v4 = {"eff": {}, "digits": None, "digit_defs": None, "mv_slots": {}}
         self.ev.models[cls.methods["m"].node] = self._m_model
         self.ev.models[cls.methods["macroVector"].node] = self._mv_model
         self.ev.models[cls.methods["extract_value_metric"].node] = self._extract_model
@@ -148,43 +151,131 @@ class ObjModel(object):
             self.ev.models[f.node] = model
 
     def _m_model(self, ev, st, args, kwargs, node, module):
+        """m(K): projection of the joint class of K's raw metric group (see _discover_m)."""
         recv, key = args[0], args[1] if len(args) > 1 else kwargs.get("metric")
         if not isinstance(key, Const):
             raise AnalysisError("E5.model", "m() called with a non-literal metric", node, module)
         k = key.v
-        real = self._real("m", st, args, node, module)
-        real = ev.simp(st, real)
-        self.v4.setdefault("real_m", {})[k] = real
-        if not isinstance(real, Fin):
-            return real
-        sk = real.sortkey()
-        for name, d in self.v4["eff_def"].items():
-            if d.sortkey() == sk:
-                self.v4["eff"][k] = name
-                return Fin((name,), dict(((x,), x) for x in self.space.dom[name]))
-        rng = []
-        for kk in sorted(real.table, key=lambda r: tuple(T.ckey(x) for x in r)):
-            x = real.table[kk]
-            if x not in rng:
-                rng.append(x)
-        # order the range like the metric's accepted values where possible
-        order = [x for x in (self.accepted.get(k) or []) if x in rng]
-        for b in (self.accepted.get(k[1:] if k.startswith("M") else "M" + k) or []):
-            if b in rng and b not in order:
-                order.append(b)
-        order += [x for x in rng if x not in order]
-        name = "eff:" + k
-        for other, d in self.v4["eff_def"].items():
-            if set(d.slots) & set(real.slots):
-                # two different effective-value functions over common inputs: not abstracted
-                # (C02.m reports the disagreement); the raw table is used as is
-                self.v4.setdefault("conflicts", []).append((other, k))
-                return real
-        self.space.add(name, tuple(order))
-        self.space.defs[name] = real
-        self.v4["eff_def"][name] = real
-        self.v4["eff"][k] = name
-        return Fin((name,), dict(((x,), x) for x in self.space.dom[name]))
+        if "groups" not in self.v4:
+            self._discover_m(ev, st, recv, node, module)
+        self.v4.setdefault("called", set()).add(k)
+        if k not in self.v4["eff_fin"]:
+            # a key that was not discovered (not a metric name): evaluate as is
+            return self._real("m", st, args, node, module)
+        return self.v4["eff_fin"][k]
+
+    def _discover_m(self, ev, st, recv, node, module):
+        """Evaluate the real m(K) for every metric key the scoring code mentions, group the raw
+        metric slots that occur together, and introduce one derived slot per group whose values
+        are the joint classes (tuples of all the group's m-values).  Exact: no independence
+        assumption between different m-functions of the same raw metrics."""
+        import ast as _ast
+
+        keys = []
+        for name in ("macroVector", "compute_base_score", "m"):
+            f = self.cls.methods[name]
+            for n in _ast.walk(f.node):
+                if isinstance(n, _ast.Constant) and isinstance(n.value, str) and n.value in self.accepted and n.value not in keys:
+                    keys.append(n.value)
+        real = {}
+        for k in keys:
+            st2 = st.copy()
+            try:
+                r = self._real("m", st2, [recv, Const(k)], node, module)
+            except Dead:
+                continue
+            r = ev.simp(st2, r)
+            if isinstance(r, (Fin, Const)):
+                real[k] = r
+        self.v4["real_m"] = real
+        # connected components of raw slots
+        parent = {}
+
+        def find(x):
+            while parent.setdefault(x, x) != x:
+                parent[x] = parent[parent[x]]
+                x = parent[x]
+            return x
+
+        for k, r in real.items():
+            if isinstance(r, Fin):
+                for sl in r.slots:
+                    parent[find(sl)] = find(r.slots[0])
+        comps = {}
+        for k, r in real.items():
+            if isinstance(r, Fin):
+                comps.setdefault(find(r.slots[0]), []).append(k)
+        fo = st.folder()
+        self.v4["groups"] = {}
+        self.v4["eff_fin"] = {}
+        self.v4["eff"] = {}
+        for root, ks in comps.items():
+            raw = set(sl for k in ks for sl in real[k].slots)
+            # the raw pair (K, M+K) always belongs to K's group, even when no m-function reads one
+            # of them: the classes then do not separate values the code ignores
+            for k in ks:
+                for cand in (k, "M" + k, k[1:] if k.startswith("M") else None):
+                    if cand and cand in self.accepted and (cand == k or cand[1:] == k or "M" + cand == k):
+                        raw.add(metric_slot(cand))
+            raw = sorted(raw)
+            sl, rows = fo.rows(raw)
+            if rows is None:
+                raise AnalysisError("E5.model", "effective-value group over %s is too large" % (raw,), node, module)
+            ks = sorted(ks)
+            classes = {}
+            order = []
+            for r in rows:
+                vals = []
+                for k in ks:
+                    f = real[k]
+                    vals.append(f.table.get(tuple(r[sl.index(x)] for x in f.slots)))
+                key_ = tuple(vals)
+                if key_ not in classes:
+                    classes[key_] = []
+                    order.append(key_)
+                classes[key_].append(r)
+            base = sorted(x[2:] for x in raw)[0]
+            # name the group after its base metric (shortest raw name)
+            base = sorted((x[2:] for x in raw), key=lambda n_: (len(n_), n_))[0]
+            gname = "eff:" + base
+            self.space.add(gname, tuple(order))
+            gdef = Fin(tuple(sl), dict((r, key_) for key_, rs in classes.items() for r in rs))
+            self.space.defs[gname] = gdef
+            self.v4["groups"][gname] = {"keys": ks, "raw": tuple(sl), "classes": classes}
+            for i, k in enumerate(ks):
+                self.v4["eff_fin"][k] = fo.simplify(Fin((gname,), dict(((c,), c[i]) for c in order)))
+                self.v4["eff"][k] = gname
+
+    def spec_leaf(self, st, k, fn, spec):
+        """Table over K's group slot of fn(specification's effective value of K); rows (classes)
+        in which the specification's effective value is not unique are marked as mismatch."""
+        gname = self.v4["eff"].get(k)
+        if gname is None:
+            return None
+        g = self.v4["groups"][gname]
+        nd = spec["nd"]
+        xdef = spec["x_default"]
+        base_to_mod = dict((b, m) for m, b in spec["modified_of"].items())
+        mk = base_to_mod.get(k)
+        raw = g["raw"]
+        table = {}
+        for cls, rows in g["classes"].items():
+            vals = set()
+            for r in rows:
+                vb = r[raw.index(metric_slot(k))] if metric_slot(k) in raw else None
+                vm = r[raw.index(metric_slot(mk))] if mk and metric_slot(mk) in raw else ABSENT
+                if vm not in (ABSENT, nd):
+                    e = vm
+                elif vb is None:
+                    e = None
+                elif vb in (ABSENT, nd):
+                    e = xdef.get(k, nd)
+                else:
+                    e = vb
+                vals.add(e)
+            table[(cls,)] = fn(vals.pop()) if len(vals) == 1 else MISMATCH
+        dom = st.folder().domain(gname)
+        return Fin((gname,), dict((kk, v) for kk, v in table.items() if kk[0] in dom))
 
     def _mv_model(self, ev, st, args, kwargs, node, module):
         real = self._real("macroVector", st, args, node, module)
